@@ -152,6 +152,7 @@ Proof.
     { rewrite <- pow16_S, <- pow16_pow2. apply pow2_le. lia. }
     set (d := value mod 10). assert (Hd : 0 <= d < 10) by (apply Z.mod_pos_bound; lia).
     set (q := value / 10). assert (Hq : 0 <= q <= value) by (unfold q; split; [apply Z.div_pos; lia|apply Z.div_le_upper_bound; lia]).
+    assert (HdX : 0 <= d * 16 ^ Z.of_nat i <= 9 * 16 ^ Z.of_nat i) by nia.
     unfold lit.
     (* value % 10 *)
     unfold c_rem. cbn [ty val fst snd]. rewrite common_i32_r by assumption.
@@ -171,9 +172,10 @@ Proof.
     rewrite in_ctyb_true by (apply in_cty_promote_nonneg; [assumption|lia]). cbn [bind].
     unfold c_add. rewrite arith2_exact; change (common i32 i32) with i32; try (cbn; lia); try (incty; lia).
     cbn [bind val snd].
+    rewrite E16.
     rewrite c_or_exact; rewrite ?common_promote_r, ?common_same by assumption; try lia;
-      try (apply in_cty_promote_nonneg; [assumption|rewrite ?E16; lia]).
-    cbn [val snd]. rewrite E16.
+      try (apply in_cty_promote_nonneg; [assumption|lia]).
+    cbn [val snd].
     rewrite <- E16 at 1. rewrite lor_low_high by (rewrite ?E16; lia). rewrite E16.
     rewrite !wrap_id by (first [unfold std_cty, std_bits in Hstd; lia | apply in_cty_nonneg; [assumption|lia]]).
     replace (4 * Z.of_nat i + 4) with (4 * Z.of_nat (S i)) by lia.
@@ -183,15 +185,19 @@ Proof.
     rewrite pow16_S. ring.
 Qed.
 
+Lemma split16 : forall a b, 0 <= a < 16 -> (a + 16 * b) mod 16 = a /\ (a + 16 * b) / 16 = b.
+Proof.
+  intros a b Ha. replace (a + 16 * b) with (a + b * 16) by lia. split.
+  - rewrite Z.mod_add by lia. apply Z.mod_small. lia.
+  - rewrite Z.div_add by lia. rewrite Z.div_small by lia. lia.
+Qed.
+
 Lemma bcd_value_to_bcd : forall k v, 0 <= v -> bcd_value k (to_bcd_spec k v) = v mod 10 ^ Z.of_nat k.
 Proof.
   induction k as [|k IH]; intros v Hv; cbn [bcd_value to_bcd_spec].
   - change (10 ^ Z.of_nat 0) with 1. rewrite Z.mod_1_r. reflexivity.
   - assert (Hd : 0 <= v mod 10 < 10) by (apply Z.mod_pos_bound; lia).
-    replace ((v mod 10 + 16 * to_bcd_spec k (v / 10)) mod 16) with (v mod 10).
-    2: { rewrite Z.add_comm, Z.mul_comm, Z.mod_add by lia. symmetry. apply Z.mod_small. lia. }
-    replace ((v mod 10 + 16 * to_bcd_spec k (v / 10)) / 16) with (to_bcd_spec k (v / 10)).
-    2: { rewrite Z.add_comm, Z.mul_comm, Z.div_add_l by lia. rewrite (Z.div_small (v mod 10)) by lia. lia. }
+    destruct (split16 (v mod 10) (to_bcd_spec k (v / 10)) ltac:(lia)) as [E1 E2]. rewrite E1, E2.
     rewrite IH by (apply Z.div_pos; lia). rewrite pow10_S.
     assert (P := pow10_pos k). rewrite Z.rem_mul_r by lia. lia.
 Qed.
@@ -200,10 +206,7 @@ Lemma all_nibbles_to_bcd : forall k v, 0 <= v -> all_nibbles_le9 k (to_bcd_spec 
 Proof.
   induction k as [|k IH]; intros v Hv; cbn [all_nibbles_le9 to_bcd_spec]; [reflexivity|].
   assert (Hd : 0 <= v mod 10 < 10) by (apply Z.mod_pos_bound; lia).
-  replace ((v mod 10 + 16 * to_bcd_spec k (v / 10)) mod 16) with (v mod 10).
-  2: { rewrite Z.add_comm, Z.mul_comm, Z.mod_add by lia. symmetry. apply Z.mod_small. lia. }
-  replace ((v mod 10 + 16 * to_bcd_spec k (v / 10)) / 16) with (to_bcd_spec k (v / 10)).
-  2: { rewrite Z.add_comm, Z.mul_comm, Z.div_add_l by lia. rewrite (Z.div_small (v mod 10)) by lia. lia. }
+  destruct (split16 (v mod 10) (to_bcd_spec k (v / 10)) ltac:(lia)) as [E1 E2]. rewrite E1, E2.
   rewrite IH by (apply Z.div_pos; lia). replace (v mod 10 <=? 9) with true by lia. reflexivity.
 Qed.
 
@@ -240,7 +243,7 @@ Proof.
     rewrite HK. rewrite to_bcd_top by lia.
     assert (Pr : 0 < 2 ^ r) by (apply pow2_pos; lia).
     assert (H8 : 2 ^ r <= 8).
-    { assert (C : r = 1 \/ r = 2 \/ r = 3) by lia. destruct C as [->|[->|->]]; pow_consts; lia. }
+    { assert (C : r = 1 \/ r = 2 \/ r = 3) by lia. destruct C as [-> | [-> | ->]]; pow_consts; lia. }
     assert (Ht : v / 10 ^ Z.of_nat q < 2 ^ r) by (apply Z.div_lt_upper_bound; nia).
     assert (Ht0 : 0 <= v / 10 ^ Z.of_nat q) by (apply Z.div_pos; lia).
     rewrite (Z.mod_small (v / 10 ^ Z.of_nat q)) by lia.
@@ -264,7 +267,6 @@ Proof.
   - cbn [cbits uty]. lia.
   - cbn [cbits uty]. assert (Hs := lw_std w). unfold std_bits in Hs. lia.
   - unfold bcd_fuel. lia.
-  - change (16 ^ Z.of_nat 0) with 1. lia.
 Qed.
 
 Lemma bcd_try_write_accept : forall bv bytes off w argty v, wf_field bv bytes off w ->
